@@ -1,7 +1,7 @@
 ; harness ListingAtStartUp assert L3-listed-iff-requested-matching-and-permitted expected unsat
 (set-logic ALL)
-(declare-const perm_Wallet1_acc2 Bool)
-(assert perm_Wallet1_acc2)
-(define-fun t391 () Bool (not perm_Wallet1_acc2))
-(assert t391)
+(declare-const perm_Wallet1_acc1 Bool)
+(assert perm_Wallet1_acc1)
+(define-fun t394 () Bool (not perm_Wallet1_acc1))
+(assert t394)
 (check-sat)
